@@ -27,7 +27,7 @@ def reaches (srcIp : Nat) (payload : Bytes) : Bool :=
       | some (_, rest) =>
         match parseHeartbeatParams rest with
         | none => false
-        | some fields => !fields.isEmpty && (parseAddr srcIp fields).isSome
+        | some fields => !fields.isEmpty && (Swat4.Heartbeat.parseAddr srcIp fields).isSome
     else if t.toNat = Facts.reporterMsgKeepalive then (parseInstanceID payload).isSome
     else false
 
